@@ -973,6 +973,85 @@ func (e *Env) bigReachingDefs(v ssa.Value, at ssa.Instruction) []*ssa.Call {
 	return out
 }
 
+// bigValueAt: the number held by the big.Int v when instruction `at` executes, as a term, when exactly one definition
+// reaches `at` on the paths that are feasible in this calling context (a conditional in-place negation under a flag of the
+// parameter object is either always or never executed for a given caller).
+func (e *Env) bigValueAt(v ssa.Value, at ssa.Instruction, depth int) (string, bool) {
+	if depth > 6 || at == nil {
+		return "", false
+	}
+	if p, ok := v.(*ssa.Parameter); ok {
+		if a, pe := e.actual(p); a != nil && e.Call != nil {
+			if ci, ok := e.Call.(ssa.Instruction); ok {
+				return pe.bigValueAt(a, ci, depth+1)
+			}
+		}
+		return "", false
+	}
+	if s, ok := e.bigTerm(v); ok {
+		return s, true
+	}
+	if at.Parent() != e.Fn {
+		return "", false
+	}
+	rt := e.termShallow(v)
+	muts := e.bigMutatorsOf(rt)
+	if c, ok := v.(*ssa.Call); ok {
+		if m := bigMethod(c); m != "" && bigMutators[m] {
+			muts = append(muts, c)
+		}
+	}
+	if len(muts) == 0 {
+		return "", false
+	}
+	cut := map[edge]bool{}
+	for ed, fs := range e.EdgeFacts() {
+		for _, f := range fs {
+			if f.Lin && f.LE.isConst() && f.LE.k < 0 {
+				cut[ed] = true
+			}
+		}
+	}
+	barriers := map[ssa.Instruction]bool{}
+	for _, m := range muts {
+		barriers[m] = true
+	}
+	var reaching []*ssa.Call
+	for _, m := range muts {
+		c, ok := m.(*ssa.Call)
+		if !ok || m == at {
+			continue
+		}
+		if !reachableAvoiding(e.Fn.Blocks[0], m.Block(), cut) {
+			continue // never executed in this calling context
+		}
+		if reachesAvoiding(e.Fn, m, at, barriers, cut) {
+			reaching = append(reaching, c)
+		}
+	}
+	if len(reaching) != 1 {
+		return "", false
+	}
+	d := reaching[0]
+	args := d.Call.Args
+	switch bigMethod(d) {
+	case "Set":
+		return e.bigValueAt(args[1], d, depth+1)
+	case "SetBytes":
+		return "bigBytes(" + e.Term(args[1]) + ")", true
+	case "SetUint64":
+		return "bigU(" + e.LE(args[1]).String() + ")", true
+	case "Neg":
+		if inner, ok := e.bigValueAt(args[1], d, depth+1); ok {
+			if strings.HasPrefix(inner, "neg(") {
+				return strings.TrimSuffix(strings.TrimPrefix(inner, "neg("), ")"), true
+			}
+			return "neg(" + inner + ")", true
+		}
+	}
+	return "", false
+}
+
 var pureInvokes = map[string]bool{
 	"Coordinator.ComputeId": true, "Coordinator.SelfId": true, "UserAccountHandler.AddressBytes": true,
 	"UserAccountHandler.GetOwnerAddress": true, "UserAccountHandler.GetUserName": true,
@@ -1406,6 +1485,42 @@ func (e *Env) ctorField(u *ssa.UnOp) (ssa.Value, *Env) {
 		if c, ok := x.Tuple.(*ssa.Call); ok && x.Index == 0 {
 			call = c
 		}
+	case *ssa.Alloc:
+		// a parameter object built as a local literal by a caller and handed down by address (`obj := T{…}; obj.run(…)`): the
+		// value the caller stored into the field, provided nothing but that caller's function ever assigns this field
+		if base != fa.X && x.Referrers() != nil {
+			var stored ssa.Value
+			n := 0
+			for _, ref := range *x.Referrers() {
+				f2, ok := ref.(*ssa.FieldAddr)
+				if !ok || f2.Field != fa.Field || f2.Referrers() == nil {
+					continue
+				}
+				for _, r2 := range *f2.Referrers() {
+					if st, ok := r2.(*ssa.Store); ok && st.Addr == ssa.Value(f2) {
+						n++
+						stored = st.Val
+					}
+				}
+			}
+			if n == 1 && e.P.fieldAssignedOnlyInFuncs(x.Type(), fa.Field) {
+				return stored, env
+			}
+			if n == 0 && e.P.fieldAssignedOnlyInFuncs(x.Type(), fa.Field) {
+				// not mentioned in the literal: the zero value
+				if st, ok := x.Type().(*types.Pointer).Elem().Underlying().(*types.Struct); ok && fa.Field < st.NumFields() {
+					if bt, ok := st.Field(fa.Field).Type().Underlying().(*types.Basic); ok {
+						switch {
+						case bt.Info()&types.IsInteger != 0:
+							return ssa.NewConst(constant.MakeInt64(0), st.Field(fa.Field).Type()), env
+						case bt.Info()&types.IsBoolean != 0:
+							return ssa.NewConst(constant.MakeBool(false), st.Field(fa.Field).Type()), env
+						}
+					}
+				}
+			}
+		}
+		return nil, nil
 	}
 	if call == nil || env.depth >= 5 {
 		return nil, nil
@@ -1524,6 +1639,36 @@ func localFreshUntouched(obj ssa.Value, idx int, u *ssa.UnOp) bool {
 }
 
 var fieldOwnerCache = map[string]bool{}
+
+var fieldLiteralOnlyCache = map[string]bool{}
+
+// fieldAssignedOnlyInFuncs: field idx of the struct type is only ever stored into through a field address of a local
+// allocation of that type (composite literals and locals), never through a pointer that came from elsewhere (a parameter, a
+// load): so an object handed down by address keeps what its creator put there.
+func (p *Prog) fieldAssignedOnlyInFuncs(ptrT types.Type, idx int) bool {
+	key := ptrT.String() + "#" + fmt.Sprint(idx)
+	if v, ok := fieldLiteralOnlyCache[key]; ok {
+		return v
+	}
+	res := true
+	for _, fn := range p.Funcs {
+		for _, b := range fn.Blocks {
+			for _, in := range b.Instrs {
+				st, ok := in.(*ssa.Store)
+				if !ok {
+					continue
+				}
+				if f2, ok := st.Addr.(*ssa.FieldAddr); ok && f2.Field == idx && types.Identical(f2.X.Type(), ptrT) {
+					if _, isLocal := f2.X.(*ssa.Alloc); !isLocal {
+						res = false
+					}
+				}
+			}
+		}
+	}
+	fieldLiteralOnlyCache[key] = res
+	return res
+}
 
 // fieldAssignedOnlyIn: no function of the module other than ctor stores into field idx of the struct type.
 func (p *Prog) fieldAssignedOnlyIn(ptrT types.Type, idx int, ctor *ssa.Function) bool {
